@@ -104,19 +104,20 @@ type Hook interface {
 }
 
 type JEntry struct {
-	Seq      uint64
-	Conn     int
-	Txn      int
-	Kind     string // BEGIN COMMIT ROLLBACK EXEC QUERY PREPARE XA CONNECT CLOSE RESET VALID SAVEPOINT
-	Class    string
-	SQL      string
-	Args     []interface{}
-	Err      string
-	Affected int64
-	LastID   int64
-	NRows    int
-	Writes   []RowWrite // for COMMIT (and XA PREPARE): what became durable
-	InTxn    bool       // connection was inside a transaction after this entry
+	Seq        uint64
+	Conn       int
+	Txn        int
+	Kind       string // BEGIN COMMIT ROLLBACK EXEC QUERY PREPARE XA CONNECT CLOSE RESET VALID SAVEPOINT
+	Class      string
+	SQL        string
+	Args       []interface{}
+	Err        string
+	Affected   int64
+	LastID     int64
+	NRows      int
+	Writes     []RowWrite // for COMMIT (and XA COMMIT, auto-commit statements): what became durable
+	StmtWrites []RowWrite // rows changed by this statement as seen by its transaction
+	InTxn      bool       // connection was inside a transaction after this entry
 }
 
 type RowWrite struct {
@@ -376,7 +377,7 @@ type savepoint struct {
 type Txn struct {
 	id       int
 	conn     *Conn
-	explicit bool // BEGIN / autocommit=0 / XA
+	explicit bool                      // BEGIN / autocommit=0 / XA
 	overlay  map[*Table]map[string]Row // nil row = deleted
 	locks    []string
 	lockSet  map[string]bool
@@ -541,4 +542,102 @@ func copyOverlay(o map[*Table]map[string]Row) map[*Table]map[string]Row {
 		out[t] = mm
 	}
 	return out
+}
+
+// LoadRows replaces the committed contents of a table (harness use; values are
+// coerced like an INSERT would).
+func (s *Server) LoadRows(schema, table string, rows [][]interface{}) error {
+	s.mu.Lock()
+	defer s.mu.Unlock()
+	t := s.table(schema, table)
+	if t == nil {
+		return fmt.Errorf("no table %s.%s", schema, table)
+	}
+	t.rows = map[string]Row{}
+	t.autoInc = 0
+	for _, in := range rows {
+		if len(in) != len(t.Cols) {
+			return fmt.Errorf("row has %d values, table %s has %d columns", len(in), table, len(t.Cols))
+		}
+		r := make(Row, len(in))
+		for i, v := range in {
+			cv, serr := t.Cols[i].coerce(normArg(v))
+			if serr != nil {
+				return fmt.Errorf("%s", serr.msg)
+			}
+			if cv == nil && t.Cols[i].NotNull {
+				return fmt.Errorf("column %s cannot be null", t.Cols[i].Name)
+			}
+			r[i] = cv
+			if t.Cols[i].AutoInc {
+				if iv, _ := toInt(cv); iv > t.autoInc {
+					t.autoInc = iv
+				}
+			}
+		}
+		k := t.pkKey(r)
+		if len(t.PK) == 0 {
+			t.hidden++
+			k = fmt.Sprintf("r%020d|", t.hidden)
+		}
+		if _, dup := t.rows[k]; dup {
+			return fmt.Errorf("duplicate primary key in initial rows of %s", table)
+		}
+		t.rows[k] = r
+	}
+	return nil
+}
+
+// Columns returns the column definitions of a table.
+func (t *Table) Columns() []*Column { return t.Cols }
+
+// PKNames returns the primary key column names in key order.
+func (t *Table) PKNames() []string {
+	var out []string
+	for _, i := range t.PK {
+		out = append(out, t.Cols[i].Name)
+	}
+	return out
+}
+
+// PKIdx returns the primary key column indexes.
+func (t *Table) PKIdx() []int { return t.PK }
+
+// CoerceFor converts v as column i of t would store it.
+func (t *Table) CoerceFor(i int, v interface{}) (interface{}, error) {
+	cv, serr := t.Cols[i].coerce(normArg(v))
+	if serr != nil {
+		return nil, fmt.Errorf("%s", serr.msg)
+	}
+	return cv, nil
+}
+
+// JournalFrom returns the journal entries appended since index n.
+func (s *Server) JournalFrom(n int) []JEntry {
+	s.mu.Lock()
+	defer s.mu.Unlock()
+	if n > len(s.Journal) {
+		n = len(s.Journal)
+	}
+	return append([]JEntry(nil), s.Journal[n:]...)
+}
+
+func (s *Server) JournalLen() int {
+	s.mu.Lock()
+	defer s.mu.Unlock()
+	return len(s.Journal)
+}
+
+// KillIdleTxns rolls back every open transaction and releases all locks
+// (harness use between episodes after a violation-free run should find none).
+func (s *Server) OpenTxnCount() int {
+	s.mu.Lock()
+	defer s.mu.Unlock()
+	n := 0
+	for _, c := range s.conns {
+		if !c.closed && c.txn != nil && c.txn.explicit {
+			n++
+		}
+	}
+	return n
 }
